@@ -16,6 +16,7 @@ EXPLANATION = (
     "path to an ok exit passes a store into the active slot / replace_active_blob or returns the blob (no orphan file with a "
     "consumed id). Decides this bookkeeping structure, not equality of every gauge with the history.")
 EXPLANATION += (" " + 'A7 = moved-out blobs are handed back on every non-error exit; A8 = C04.T7; A1 additionally checks the count the loaders return.')
+EXPLANATION += (" " + 'A9 = C03.I2.')
 ASSUMPTIONS = []
 
 
